@@ -88,6 +88,18 @@ def run(rep, tier, seed):
             fails = ['SCHC packet %s is exactly the id of a rule but decompress raised the rule-ID error' % s] if out == ('EXC', 'RuleIDMatchError') else []
             line = ' '.join(['S', 'cmdecompress', tb(s), 'N'] + rules_tokens(nrs))
             b.add('manager-decompress:id-only', line, out, parse_model_bits, fails, dict(layer='schc', op='cmdecompress', schc=s, rules=nrs), key=line)
+        if i % 10 == 0:
+            # a manager whose context has no rule yet: every SCHC packet matches no rule id, every packet matches no rule
+            cm0 = ContextManager(Context(id='c0', description='', interface_id='i', parser_id=stack, ruleset=[]))
+            for s in ('', randbits(rnd, rnd.randint(1, 40))):
+                out = obs_bits(with_timeout(lambda: cm0.decompress(mk(s, rnd.choice([L, R])))))
+                fails = [] if out == ('EXC', 'RuleIDMatchError') else ['empty rule set: decompress of %r gave %s instead of the rule-ID error' % (s, str(out)[:80])]
+                line = ' '.join(['S', 'cmdecompress', tb(s), 'N'] + rules_tokens([]))
+                b.add('manager-decompress:empty-rule-set', line, out, parse_model_bits, fails, dict(layer='schc', op='cmdecompress', schc=s, rules=[]), key=(line, i))
+            out = obs_bits(with_timeout(lambda: cm0.compress(Buffer(pkt, len(pkt) * 8), direction=d)))
+            fails = [] if out == ('EXC', 'RuleDescriptorMatchError') else ['empty rule set: compress gave %s instead of the rule-match error' % (str(out)[:80],)]
+            line = ' '.join(['S', 'cmcompressp', stack, tb(bits), DIRC[d], 'F'] + rules_tokens([]))
+            b.add('manager-compress:empty-rule-set', line, out, parse_model_bits, fails, dict(layer='schc', op='cmcompress', stack=stack, packet=pkt.hex(), rules=[], direction=DIRC[d], strategy='first'), key=(line, i))
         # SCHC packets matching no rule id
         for _ in range(3):
             s = rnd.choice(['', randbits(rnd, rnd.randint(0, 20)), rnd.choice(ids)[:-1], randbits(rnd, 1)])
@@ -108,13 +120,16 @@ def run(rep, tier, seed):
             stacks = [stacks[0]] * nctx          # contexts that accept the same packets: only the order of trial tells them apart
         seeds = [gen_parsed(rnd, s) for s in stacks]
         nrules = [rnd.randint(1, 3) for _ in range(nctx)]
+        if nctx > 1 and h % 4 == 1:
+            nrules[rnd.randrange(nctx - 1)] = 0      # a context without any rule yet (being provisioned): it accepts nothing, the next one is tried
+            rep.hist['front-end-context-without-rules'] = rep.hist.get('front-end-context-without-rules', 0) + 1
         withdef = [rnd.random() < 0.3 and k == nctx - 1 for k in range(nctx)]
         ids = prefix_free_ids(rnd, sum(nrules) + sum(withdef))
         ctxs, pos = [], 0
         for k in range(nctx):
             stack, pkt, st, pd = seeds[k]
             pd.direction = DI.UP
-            rules = gen_ruleset(rnd, pd, n=nrules[k], with_default=False, match_prob=0.8, kinds=('ns', 'vs', 'vsv', 'lsb', 'lsbv', 'map'))
+            rules = gen_ruleset(rnd, pd, n=nrules[k], with_default=False, match_prob=0.8, kinds=('ns', 'vs', 'vsv', 'lsb', 'lsbv', 'map')) if nrules[k] else []
             # "what it compresses it also decompresses back" is about rules that are lossless by construction: a near-miss mutant
             # that still applies but is lossy (e.g. a value-sent descriptor whose declared length is not the field's) is replaced
             npd_k = dict(n_pdesc(pd), dir='U')
